@@ -60,23 +60,29 @@ inductive Res
   | err (e : Errno)
 deriving Repr
 
-/-- kernel path walk: `cur` is a directory; `follow` = follow a symbolic link in the final position -/
-def walk (fs : Fs) : Nat → CPath → List Name → Bool → Res
-  | _, cur, [], _ => .found cur .dir
-  | 0, _, _ :: _, _ => .err .eloop
-  | fuel + 1, cur, c :: rest, follow =>
-    if c = [46] then walk fs fuel cur rest follow
-    else if c = dotdot then walk fs fuel cur.dropLast rest follow
+/-- kernel path walk over the remaining components: `cur` is a directory; `follow` = follow a symbolic
+    link in the final position; `k` continues after a symbolic link has been expanded -/
+def walkAux (fs : Fs) (k : CPath → List Name → Bool → Res) : CPath → List Name → Bool → Res
+  | cur, [], _ => .found cur .dir
+  | cur, c :: rest, follow =>
+    if c = [46] then walkAux fs k cur rest follow
+    else if c = dotdot then walkAux fs k cur.dropLast rest follow
     else
       match fs.get (cur ++ [c]) with
       | none => if rest = [] then .missing cur c else .err .enoent
-      | some .dir => walk fs fuel (cur ++ [c]) rest follow
+      | some .dir => walkAux fs k (cur ++ [c]) rest follow
       | some (.file d) => if rest = [] then .found (cur ++ [c]) (.file d) else .err .enotdir
       | some (.link t) =>
         if rest = [] ∧ follow = false then .found (cur ++ [c]) (.link t)
-        else walk fs fuel (if startsWith47 t then [] else cur) (chunks t ++ rest) follow
+        else k (if startsWith47 t then [] else cur) (chunks t ++ rest) follow
 
-def walkFuel : Nat := 96
+/-- what happens after a link expansion: one unit of the ELOOP budget is used -/
+def walk (fs : Fs) : Nat → CPath → List Name → Bool → Res
+  | 0 => walkAux fs (fun _ _ _ => .err .eloop)
+  | fuel + 1 => walkAux fs (walk fs fuel)
+
+/-- number of symbolic links one resolution may expand (ELOOP beyond; Linux: 40) -/
+def walkFuel : Nat := 40
 
 def resolve (fs : Fs) (path : Bytes) (follow : Bool) : Res :=
   if path = [] then .err .enoent
